@@ -34,6 +34,7 @@ type PropRound struct {
 	Claims       int     `json:"claims"`
 	Unlocks      int     `json:"unlocks"`
 	Mempool      []MemTx `json:"mempool,omitempty"`
+	Stale        int     `json:"stale,omitempty"` // honest rounds: 1 = mempool txs expire before the proposal is built, 2 = their sequence is consumed by another tx first
 	Mut          int     `json:"mut"` // 0 = honest round with the real proposal builder; > 0 = mutation kind
 	Arg          int     `json:"arg"`
 }
@@ -108,7 +109,7 @@ func (w *propWorld) relayerTx(n *world.Node, bump uint64, msg sdk.Msg, o world.T
 }
 
 // memTx builds one mempool transaction.
-func (w *propWorld) memTx(n *world.Node, mt MemTx, bump uint64) ([]byte, bool, error) {
+func (w *propWorld) memTx(n *world.Node, mt MemTx, bump uint64, opts world.TxOpts) ([]byte, bool, error) {
 	rv, err := w.c.Nodes[0].RelayerView()
 	if err != nil {
 		return nil, false, err
@@ -122,7 +123,7 @@ func (w *propWorld) memTx(n *world.Node, mt MemTx, bump uint64) ([]byte, bool, e
 		if err != nil {
 			return nil, false, err
 		}
-		raw, err := w.relayerTx(n, bump, msg, world.TxOpts{})
+		raw, err := w.relayerTx(n, bump, msg, opts)
 		return raw, true, err
 	case "consolidation":
 		w.vf.salt = w.salt + 1000
@@ -131,10 +132,10 @@ func (w *propWorld) memTx(n *world.Node, mt MemTx, bump uint64) ([]byte, bool, e
 		if err != nil {
 			return nil, false, err
 		}
-		raw, err := w.relayerTx(n, bump, msg, world.TxOpts{})
+		raw, err := w.relayerTx(n, bump, msg, opts)
 		return raw, true, err
 	case "approve-unknown":
-		raw, err := w.relayerTx(n, bump, &bitcointypes.MsgApproveCancellation{Proposer: rv.Proposer, Id: []uint64{uint64(900_000 + mt.Arg)}}, world.TxOpts{})
+		raw, err := w.relayerTx(n, bump, &bitcointypes.MsgApproveCancellation{Proposer: rv.Proposer, Id: []uint64{uint64(900_000 + mt.Arg)}}, opts)
 		return raw, true, err
 	case "stale-seq":
 		prop := w.vf.memberAcc(rv.Proposer)
@@ -180,8 +181,12 @@ func (w *propWorld) round(ri int, r PropRound, o *Outcome) *Failure {
 		// ---- (a) the honest proposer ----
 		bump := uint64(0)
 		admitted := 0
+		memOpts := world.TxOpts{}
+		if r.Stale == 1 {
+			memOpts.TimeoutHeight = uint64(blk.Height) // fine now, expired once this height has passed
+		}
 		for _, mt := range r.Mempool {
-			raw, wantIn, err := w.memTx(p, mt, bump)
+			raw, wantIn, err := w.memTx(p, mt, bump, memOpts)
 			if err != nil {
 				return failf("fixture", "mempool-tx-build-failed", "%v", err)
 			}
@@ -201,6 +206,24 @@ func (w *propWorld) round(ri int, r PropRound, o *Outcome) *Failure {
 		if admitted > 0 {
 			o.NonTrivial = true
 			o.Classes = append(o.Classes, fmt.Sprintf("mempool>=%d", min(admitted/5*5, 15)))
+		}
+		if r.Stale != 0 && admitted > 0 {
+			// the chain moves on before this node gets to propose: the pooled transactions go stale
+			var extra [][]byte
+			if r.Stale == 2 {
+				rv, _ := c.Nodes[0].RelayerView()
+				raw, err := p.Tx(w.vf.memberAcc(rv.Proposer), 0, world.TxOpts{}, &bitcointypes.MsgApproveCancellation{Proposer: rv.Proposer, Id: []uint64{930_000}})
+				if err != nil {
+					return failf("fixture", "tx-build-failed", "%v", err)
+				}
+				extra = [][]byte{raw} // takes the sequence number the first pooled transaction was signed for
+			}
+			if fl := w.honestHarnessBlock(r.DT, r.Proposer, world.BuildPlan{}, extra); fl != nil {
+				return fl
+			}
+			blk = c.Chain.NextBlock(time.Duration(r.DT)*time.Second, abs(r.Proposer)%2, nil, nil)
+			p = c.NodeOf(blk)
+			o.Classes = append(o.Classes, fmt.Sprintf("stale-mempool-%d", r.Stale))
 		}
 		p.Eng.SetPlan(plan)
 		pr, err := p.Prepare(blk.PrepareReq(nil))
@@ -433,6 +456,9 @@ func genPropCase(t *rapid.T) PropCase {
 		}
 		if rapid.IntRange(0, 2).Draw(t, "honest") == 0 {
 			k := rapid.SampledFrom([]int{0, 0, 1, 3, 14, 15, 16, 22, 40}).Draw(t, "mempool")
+			if k > 0 && rapid.IntRange(0, 2).Draw(t, "staleRoll") == 0 {
+				r.Stale = rapid.IntRange(1, 2).Draw(t, "stale")
+			}
 			for j := 0; j < k; j++ {
 				r.Mempool = append(r.Mempool, MemTx{Kind: rapid.SampledFrom([]string{"hashvote", "consolidation", "approve-unknown", "approve-unknown", "stale-seq", "deposits-bad"}).Draw(t, "memKind"), Arg: j})
 			}
